@@ -3,9 +3,13 @@ package props
 import (
 	"fmt"
 	"net/netip"
+	"os"
+	"path/filepath"
 	"sort"
+	"strconv"
 
 	"github.com/AdguardTeam/urlfilter"
+	"github.com/AdguardTeam/urlfilter/filterlist"
 	"github.com/AdguardTeam/urlfilter/rules"
 
 	"verifharness/internal/core"
@@ -383,6 +387,19 @@ func c08Run(c *core.Ctx, idx int) {
 
 		return
 	}
+	if !dns && len(x1.Domains) > 0 && c.Rng.Intn(6) == 0 {
+		// A $domain list long enough for the line (and the line of the twin,
+		// whose ",badfilter" comes last) to exceed the 4 KiB read buffers;
+		// fillers in the polarity that changes nothing.
+		pos := false
+		for _, d := range x1.Domains {
+			pos = pos || !d.Neg
+		}
+		for k, n := 0, []int{230, 420}[c.Rng.Intn(2)]; k < n; k++ {
+			x1.Domains = append(x1.Domains, gen.Val{Name: "filler" + strconv.Itoa(k) + ".example", Neg: !pos})
+		}
+		c.Event("extra_rules_longer_than_4k", 1)
+	}
 	xs := []*gen.Spec{x1}
 	canon[x1.CanonKey()] = true
 	for i, k := 0, c.Rng.Intn(4); i < k; i++ {
@@ -466,6 +483,35 @@ func c08Run(c *core.Ctx, idx int) {
 		c.Event("r2_"+aspect, 1)
 	}
 
+	// The lists of the engines are string-backed, or (one case in four) files,
+	// from which rules are read again when they are looked up.
+	mkStorage := func(lines []string) *filterlist.RuleStorage { return util.Storage(util.Lines(lines)) }
+	if c.Rng.Intn(4) == 0 {
+		if dir, derr := os.MkdirTemp(filepath.Join(c.Env.VerifDir, ".work"), "c08f."); derr == nil {
+			defer os.RemoveAll(dir)
+			var opened []*filterlist.RuleStorage
+			defer func() {
+				for _, st := range opened {
+					_ = st.Close()
+				}
+			}()
+			mkStorage = func(lines []string) *filterlist.RuleStorage {
+				fn := filepath.Join(dir, "l"+strconv.Itoa(len(opened))+".txt")
+				if os.WriteFile(fn, []byte(util.Lines(lines)), 0o644) == nil {
+					if fl, ferr := filterlist.NewFileRuleList(1, fn, false); ferr == nil {
+						if st, serr := filterlist.NewRuleStorage([]filterlist.RuleList{fl}); serr == nil {
+							opened = append(opened, st)
+
+							return st
+						}
+					}
+				}
+
+				return util.Storage(util.Lines(lines))
+			}
+			c.Event("cases_with_file_backed_lists", 1)
+		}
+	}
 	for _, sc := range scs {
 		ext := c08Insert(c, sc.base, sc.added)
 		c.NonTrivial(core.Hash64(append([]string{sc.relation}, ext...)...))
@@ -502,9 +548,10 @@ func c08Run(c *core.Ctx, idx int) {
 			split := func(lines []string) []string {
 				return []string{util.Lines(lines)}
 			}
+			_ = split
 			if dns {
-				ea := urlfilter.NewDNSEngine(util.Storage(split(sc.base)...))
-				eb := urlfilter.NewDNSEngine(util.Storage(split(ext)...))
+				ea := urlfilter.NewDNSEngine(mkStorage(sc.base))
+				eb := urlfilter.NewDNSEngine(mkStorage(ext))
 				dreq := &urlfilter.DNSRequest{Hostname: q.Host, DNSType: q.DNSType, ClientName: q.ClientName, ClientIP: q.ClientIP, SortedClientTags: q.Tags}
 				ra, ma := ea.MatchRequest(dreq)
 				rb, mb := eb.MatchRequest(dreq)
@@ -522,8 +569,8 @@ func c08Run(c *core.Ctx, idx int) {
 					report("DNSEngine.MatchRequest", "a $badfilter rule is the basic rule: "+rb.NetworkRule.RuleText)
 				}
 			} else {
-				ea := urlfilter.NewEngine(util.Storage(split(sc.base)...))
-				eb := urlfilter.NewEngine(util.Storage(split(ext)...))
+				ea := urlfilter.NewEngine(mkStorage(sc.base))
+				eb := urlfilter.NewEngine(mkStorage(ext))
 				va, vb := c08WebVerdict(ea.MatchRequest(req)), c08WebVerdict(eb.MatchRequest(req))
 				c.Eval(1)
 				if d := c08Compare(va, vb, false); d != "" {
@@ -532,8 +579,8 @@ func c08Run(c *core.Ctx, idx int) {
 				if vb.resultRule != nil && vb.resultRule.IsOptionEnabled(rules.OptionBadfilter) {
 					report("Engine.MatchRequest", "a $badfilter rule is the basic result: "+vb.Result)
 				}
-				na := urlfilter.NewNetworkEngine(util.Storage(split(sc.base)...))
-				nb := urlfilter.NewNetworkEngine(util.Storage(split(ext)...))
+				na := urlfilter.NewNetworkEngine(mkStorage(sc.base))
+				nb := urlfilter.NewNetworkEngine(mkStorage(ext))
 				r1, _ := na.Match(req)
 				r2, _ := nb.Match(req)
 				c.Eval(1)
@@ -558,6 +605,7 @@ func init() {
 			"and rules y differing from x in exactly one of {exception, pattern, content type, third-party, important, $domain, $denyallow, $dnstype, $ctag, $client, $dnsrewrite, match-case} added with x$badfilter; " +
 			"one extra rule in four is added two or three times (one twin disables every copy); " +
 			"one case in six the extra rules have a pattern with raw non-ASCII text (five ASCII bytes, then a multi-byte character) and the requests carry it; " +
+			"one case in four builds the engines over file-backed lists; extra rules with $popup / $empty / $mp4, with $domain lists of 230 / 420 entries, and a future-modifier aspect ($to, $method, $header, $app: rejected today); " +
 			"verdicts before/after are compared through rule objects in list order (NewMatchingResult, GetDNSBasicRule, DNSRewrites: exact texts) and through Engine, NetworkEngine and DNSEngine (equal up to priority ties); non-trivial = every extended list; distinct by relation and list",
 		Assumptions: []string{
 			"twins keep the value order inside each modifier (a permuted $domain list is a declared don't-care)",
